@@ -59,10 +59,6 @@ Fixpoint check_ops (cl cn : bool) (tab : list (N * N)) (k : nat) (i : index) (os
    (pattern number, string id (0 = the absent tag), Go regexp's answer, the index's answer). Pattern reading 2n is the
    index's translation of pattern n (today's or the repaired one, switch cr), reading 2n+1 is the language (Go regexp,
    as the pruning path evaluates a regex atom). *)
-Definition pat_of (pats : list (N * re)) (n : N) : re :=
-  match find (fun x => fst x =? n) pats with Some x => snd x | None => RClass [] end.
-Definition str_of (strs : list (N * list N)) (v : N) : option (list N) :=
-  if v =? 0 then None else match find (fun x => fst x =? v) strs with Some x => Some (snd x) | None => Some [] end.
 Definition index_match (cr : bool) (r : re) (v : option (list N)) : bool :=
   if cr then current_match r v else repaired_match r v.
 Definition model_tab (cr : bool) (pats : list (N * re)) (strs : list (N * list N)) : list (N * N) :=
